@@ -32,6 +32,9 @@ from vermouth.rcsu.go_pipeline import GoPipeline
 from vermouth.graph_utils import make_residue_graph
 
 quiet_vermouth_logs()
+chk.trusted.append('harness/c18.py: system builder, canonicaliser of nodes/interactions/nonbond_params, property oracle '
+                   '(networkx shortest paths, Fractions); exactness of float sqrt/comparison on integer lattices with '
+                   'dyadic cut-offs')
 KNOWN_IDS = {k['id'] for k in chk.known if k.get('status') == 'known'}
 
 BB_TYPES = ['P2', 'SP2', 'P1', 'SP1a', 'Q5', 'N4a']
@@ -215,6 +218,16 @@ def oracle(spec, obs):
     contacts = obs['contacts']
     if obs['status'] != 'ok':
         flags.add('aborted')
+        if obs['status'] == 'keyerror':
+            errs.append('KeyError: no Go virtual-site type found for a listed residue')
+        else:
+            # sys.exit(1) is only acceptable when a listed, present residue has no backbone particle
+            res_bb = {}
+            for k, a in pre:
+                r = (a['chain'], a['resid'], a['resname'])
+                res_bb[r] = res_bb.get(r, False) or a.get('atomname') == backbone
+            if all(res_bb.values()):
+                errs.append('exit although every residue has a backbone particle')
         return errs, finding, flags
     if len(set(contacts)) != len(contacts):
         flags.add('repeated-entries')
